@@ -424,6 +424,9 @@ def _check_histogram(samples, name):
             raise ValueError("Cannot have negative _gsum with non-negative buckets: " + name)
 
     for s in samples:
+        if s.native_histogram is not None:
+            # Native histogram samples have neither a float value nor an le label.
+            continue
         suffix = s.name[len(name):]
         g = _group_for_sample(s, name, 'histogram')
         if len(suffix) == 0:
